@@ -141,9 +141,41 @@ func replayOne(cfg replayCfg, bi int, beh []step) behResult {
 			}
 			return nil
 		}
+		// a run of the pool's reorg loop that the behaviour does not ask for (the ticker fired between two calls of
+		// the driver - under load the driver can be off the CPU for longer than the ticker period) and that promoted,
+		// reset or changed anything: the execution is no longer the behaviour that was asked for
+		unplannedRun := func() bool {
+			h.mu.Lock()
+			defer h.mu.Unlock()
+			var before *absState
+			planned := ev
+			if st.Op != "tick" && st.Op != "head" {
+				planned = nil
+			}
+			dev := false
+			for i := groupStart; i < len(h.events); i++ {
+				e := h.events[i]
+				if e.Op == "reorg" && e != planned {
+					if len(e.Addrs) > 0 || e.Reset || (before != nil && !reflect.DeepEqual(stripObs(before), stripObs(e.St))) {
+						dev = true
+					}
+				}
+				if e.Op != "reorgbegin" {
+					before = e.St
+				}
+			}
+			return dev
+		}
 		mis := func(field string, exp, g interface{}) behResult {
 			if nd {
 				res.status = "nd-diverged"
+				return res
+			}
+			// an answer or state that differs from the specified one is judged only if the schedule was the one asked
+			// for: e.g. an unplanned run promotes an account's queue, truncatePending then drops the highest nonces (go-quai
+			// does not exempt local accounts), and a transaction the behaviour expects to be "known" is new again
+			if unplannedRun() {
+				res.status = "deviated"
 				return res
 			}
 			res.status = "mismatch"
@@ -262,33 +294,14 @@ func replayOne(cfg replayCfg, bi int, beh []step) behResult {
 		}
 		res.steps++
 		// schedule check: no run other than the planned ones may have promoted or changed anything
-		{
+		if unplannedRun() {
+			res.status = "deviated"
+			return res
+		}
+		if st.Op == "tick" || st.Op == "head" {
 			h.mu.Lock()
-			var before *absState
-			planned := ev
-			if st.Op != "tick" && st.Op != "head" {
-				planned = nil
-			}
-			dev := false
-			for i := groupStart; i < len(h.events); i++ {
-				e := h.events[i]
-				if e.Op == "reorg" && e != planned {
-					if len(e.Addrs) > 0 || e.Reset || (before != nil && !reflect.DeepEqual(stripObs(before), stripObs(e.St))) {
-						dev = true
-					}
-				}
-				if e.Op != "reorgbegin" {
-					before = e.St
-				}
-			}
-			if planned != nil {
-				groupStart = len(h.events)
-			}
+			groupStart = len(h.events)
 			h.mu.Unlock()
-			if dev {
-				res.status = "deviated"
-				return res
-			}
 		}
 		if f, e, g := diffState(st.St, got); f != "" {
 			return mis(f, e, g)
